@@ -79,15 +79,16 @@ template <class T> static bool is_zero(const T &x) { const unsigned char *p = (c
 
 bool prop_run(Tape &t, Report &r) {
   // ---- material: three headers + audio packets
-  LStream s; std::string desc; std::vector<vs::Field> idf, setf; bool synthetic = !t.chance(1, 4);
+  LStream s; std::string desc; std::vector<vs::Field> idf, setf; bool synthetic = !t.chance(1, 4); std::vector<uint64_t> counts;   // how many books, floors, ... the set-up declares: the natural boundary values of every index field
+  auto note_counts = [&](const vs::Setup &q) { for (uint64_t n : {(uint64_t)q.books.size(), (uint64_t)q.floors.size(), (uint64_t)q.residues.size(), (uint64_t)q.mappings.size(), (uint64_t)q.modes.size(), (uint64_t)q.channels}) { counts.push_back(n); counts.push_back(n + 1); counts.push_back(n + 2); if (n) counts.push_back(n - 1); } };
   if (synthetic) {
     vg::GenOpts go; go.simple = t.chance(1, 2); go.maxch = t.chance(1, 10) ? 255 : 6; go.max_bslog = t.chance(1, 6) ? 13 : 10; if (t.chance(1, 12)) go.huge_book_log = 10 + (int)t.below(13);
     vg::GenStream gs; vg::gen_stream(t, go, 2 + (int)t.below(10), gs, 3); if (!gs.ok) return r.harness("vgen: %s", gs.err.c_str());
-    s = gs.ls; desc = s.desc; vs::write_id(gs.s, &idf); vs::write_setup(gs.s, &setf); if (go.huge_book_log) { r.label("huge ordered codebook"); desc += sfmt(" hugebook=2^%d", go.huge_book_log); }
+    s = gs.ls; desc = s.desc; vs::write_id(gs.s, &idf); vs::write_setup(gs.s, &setf); note_counts(gs.s); if (go.huge_book_log) { r.label("huge ordered codebook"); desc += sfmt(" hugebook=2^%d", go.huge_book_log); }
   } else {
     EncCfg cfg = gen_link_cfg(t, 6); Signal sig = Signal::gen(t); std::string err; std::vector<int> pieces{6000}; std::vector<char> da;
     if (encode_stream(cfg, sig, 6000, pieces, da, s, err)) { cfg = EncCfg(); if (encode_stream(cfg, sig, 6000, pieces, da, s, err)) return r.harness("encode: %s", err.c_str()); }
-    desc = s.desc; vs::Setup sp; if (vs::parse_id(s.hdr[0].data, sp).empty() && vs::parse_setup(s.hdr[2].data, sp).empty()) { vs::write_id(sp, &idf); vs::write_setup(sp, &setf); }
+    desc = s.desc; vs::Setup sp; if (vs::parse_id(s.hdr[0].data, sp).empty() && vs::parse_setup(s.hdr[2].data, sp).empty()) { vs::write_id(sp, &idf); vs::write_setup(sp, &setf); note_counts(sp); }
     r.label("encoder stream");
   }
   // ---- mutations
@@ -101,9 +102,22 @@ bool prop_run(Tape &t, Report &r) {
       if (g_tape_gen >= 3 && t.chance(1, 2)) {
         int cats[32], nc = 0; bool seen[32] = {false}; for (auto &ff : setf) if (ff.cat > 0 && ff.cat < 32 && !seen[ff.cat]) { seen[ff.cat] = true; cats[nc++] = ff.cat; }
         int cat = cats[t.below((uint32_t)nc)]; std::vector<size_t> idx; for (size_t q = 0; q < setf.size(); q++) if (setf[q].cat == cat) idx.push_back(q);
-        fi = idx[t.spread((uint32_t)idx.size())]; sel = (int)t.below(10); md += sfmt("cat%d:", cat);
+        fi = idx[t.spread((uint32_t)idx.size())]; sel = g_tape_gen >= 4 && !counts.empty() ? (t.below(5) >= 2 ? 13 + (int)t.below(4) : (int)t.below(13)) : (int)t.below(10);   // gen 4: three in five go boundary seeking md += sfmt("cat%d:", cat);
+        if (sel >= 13) {   // gen 4: acceptance-boundary seeking - bisect, with vorbis_synthesis_headerin itself, the largest (or smallest) value of this field
+          // that the library still accepts, and put the field exactly there: an index or size check that is off by one lets through precisely that value
+          const vs::Field &f0 = setf[fi]; uint64_t mv = f0.bits >= 63 ? (~0ull >> 1) : ((1ull << f0.bits) - 1); long probes = 0;
+          auto accepted = [&](uint64_t v) { std::vector<uint8_t> tmp = s.hdr[2].data; vs::patch_field(tmp, f0, v); vorbis_info pvi; vorbis_comment pvc; vorbis_info_init(&pvi); vorbis_comment_init(&pvc); bool ok = true; probes++;
+            for (int h = 0; h < 3 && ok; h++) { ogg_packet po; s.hdr[h].to_ogg(po); if (h == 2) { po.packet = tmp.data(); po.bytes = (long)tmp.size(); } ok = vorbis_synthesis_headerin(&pvi, &pvc, &po) == 0; }
+            vorbis_comment_clear(&pvc); vorbis_info_clear(&pvi); return ok; };
+          uint64_t cur = f0.val & mv, v0 = cur; bool up = sel != 16;
+          if (accepted(cur)) {
+            if (up) { if (accepted(mv)) v0 = mv; else { uint64_t lo = cur, hi = mv; while (hi - lo > 1 && probes < 80) { uint64_t mid = lo + (hi - lo) / 2; if (accepted(mid)) lo = mid; else hi = mid; } v0 = lo; } }
+            else { if (accepted(0)) v0 = 0; else { uint64_t lo = 0, hi = cur; while (hi - lo > 1 && probes < 80) { uint64_t mid = lo + (hi - lo) / 2; if (accepted(mid)) hi = mid; else lo = mid; } v0 = hi; } }
+            r.label(v0 != cur ? "field moved to its acceptance boundary" : "field already at its acceptance boundary");
+          } else r.label("boundary seeking: headers already refused");
+          vs::patch_field(s.hdr[2].data, f0, v0); md += sfmt("setup[bit %zu,%d]=%llu (%s accepted value) ", f0.pos, f0.bits, (unsigned long long)v0, up ? "largest" : "smallest"); continue; }
         if (sel >= 6) { const vs::Field &f0 = setf[fi]; uint64_t mv = f0.bits >= 64 ? ~0ull : ((1ull << f0.bits) - 1), v0;
-          if (sel == 6) v0 = setf[idx[t.spread((uint32_t)idx.size())]].val; else if (sel == 7) v0 = f0.val + 1; else if (sel == 8) v0 = f0.val - 1; else { static const uint64_t odd[] = {62, 63, 64, 100, 255, 256, 4096, 2, 3, 7, 8, 9}; v0 = odd[t.below(12)]; }
+          if (sel == 6) v0 = setf[idx[t.spread((uint32_t)idx.size())]].val; else if (sel == 7) v0 = f0.val + 1; else if (sel == 8) v0 = f0.val - 1; else if (sel >= 10) v0 = counts[t.below((uint32_t)counts.size())];   /* gen 4: an index field set to the number of objects of some kind, +-1 (index fields are often stored off by one) */ else { static const uint64_t odd[] = {62, 63, 64, 100, 255, 256, 4096, 2, 3, 7, 8, 9}; v0 = odd[t.below(12)]; }
           v0 &= mv; vs::patch_field(s.hdr[2].data, f0, v0); md += sfmt("setup[bit %zu,%d]=%llu ", f0.pos, f0.bits, (unsigned long long)v0); continue; }
       } else fi = t.spread((uint32_t)setf.size());
       const vs::Field &f = setf[fi]; uint64_t maxv = f.bits >= 64 ? ~0ull : ((1ull << f.bits) - 1); uint64_t v;
